@@ -145,7 +145,8 @@ prop("C01", "no accepted QoS>=1 publish / subscribe / unsubscribe is lost", "fau
      "detector), a budget hit while still progressing is inconclusive. Non-trivial = a fault fired while >= 1 accepted QoS>=1 "
      "request was unacknowledged, or a request was submitted before the first connection / during an outage; distinct = FNV-64 "
      "of the case JSON.",
-     [dict(tests="^TestVerifC01_NoLoss$", checks_quick=2500, checks_thorough=12000, shards=16)],
+     [dict(tests="^TestVerifC01_NoLoss$", checks_quick=2500, checks_thorough=12000, shards=12),
+      dict(tests="^TestVerifC01_ReconnectRace$", checks_quick=2000, checks_thorough=10000, shards=8, shards_quick=2)],
      assumptions=["ResponseTimeout 0, keep-alive off, Disconnect never called, Transport.Write never returns io.EOF (the property's stated assumptions)",
                   "the broker eventually stays reachable: every fault fires at most once"])
 
